@@ -20,10 +20,13 @@
    same deque; the invariant records that.
 
    Facts about the model that the invariant establishes and relies on:
-   no step writes fiber state 5 (SAVING_STATE_TO_WAIT), so pc PN9 is
-   unreachable; with nthr = 1 load_balance never steals, so pc PL2 is
-   unreachable; fiber id 0 is the model's NULL, so programs must not spawn it
-   (prog_ok).  *)
+   with nthr = 1 load_balance never steals, so pc PL2 is unreachable; fiber ids
+   outside 1..NF are refused by the model itself (bad_id), so prog_ok only
+   bounds the spawned ids from above; a fiber scheduled while SAVING (park-
+   saving) stays in the deques (or in the local of PN8/PN9/PSched) until the
+   flip, is re-queued by next() without a hand-out, and is handed out only
+   after the flip; wake / park-saving act only on fibers parked in a wait queue
+   (inwq), which are in no place.  *)
 From Coq Require Import List ZArith Lia Bool Arith.
 From LF Require Import Conc Sched.
 Import ListNotations.
@@ -556,19 +559,24 @@ Proof.
     intuition (subst; try lia; try congruence).
 Qed.
 
+Lemma wqz_true s f : inwq s f = true <-> wqz s f = 1%Z.
+Proof. unfold wqz. destruct (inwq s f); split; intros; auto; discriminate. Qed.
+Lemma wqz_false s f : inwq s f = false <-> wqz s f = 0%Z.
+Proof. unfold wqz. destruct (inwq s f); split; intros; auto; discriminate. Qed.
+
 Lemma places_range N s f : Inv N s -> In f (places s) -> fstt s f <> 0%Z /\ 1 <= f <= N.
 Proof.
-  intros I Hin. pose proof (i_fib N s I f) as [_ Hq _ _ Hr].
+  intros I Hin. pose proof (i_fib N s I f) as [_ Hq _ _ _ _ Hr].
   assert (H0 : fstt s f <> 0%Z).
   { unfold places in Hin. apply in_app_or in Hin. destruct Hin as [Hin|Hin].
     - eapply held_exists; eauto.
-    - rewrite Hq; [discriminate|]. rewrite <- cnt_app. apply cnt_In. exact Hin. }
+    - rewrite <- cnt_app in Hq. apply cnt_In in Hin. specialize (Hq Hin). lia. }
   auto.
 Qed.
 
 Lemma places_NoDup N s : Inv N s -> NoDup (places s).
 Proof.
-  intros I. apply cnt_NoDup. intros f. pose proof (i_fib N s I f) as [H _ _ _ _].
+  intros I. apply cnt_NoDup. intros f. pose proof (i_fib N s I f) as [H _ _ _ _ _ _].
   unfold places. rewrite !cnt_app. lia.
 Qed.
 
@@ -579,23 +587,44 @@ Proof.
   intros f Hf. apply (places_range N s f I Hf).
 Qed.
 
+(* a fiber that next() has handed out and that is not yet RUNNING *)
+Definition handed (s : st) (nf : nat) : Prop :=
+  match pc (T0 s) with
+  | PY2 x | PY3 x | PY4 x _ | PI1 x => x = nf
+  | _ => False
+  end.
+
 (* the conservation statement (C02, scheduler half; used by C10) *)
 Lemma conservation_of_inv N s : Inv N s ->
   NoDup (places s) /\
-  (forall f, In f (Fq s ++ Sq s) -> fstt s f = 2%Z) /\
-  (forall f, fstt s f = 1%Z \/ fstt s f = 2%Z -> In f (places s)) /\
+  (forall f, In f (Fq s ++ Sq s) ->
+     fstt s f = 2%Z \/ fstt s f = 5%Z \/ (fstt s f = 3%Z /\ inwq s f = false)) /\
+  (forall f, fstt s f = 1%Z \/ fstt s f = 2%Z \/ fstt s f = 5%Z \/ (fstt s f = 3%Z /\ inwq s f = false) ->
+     In f (places s)) /\
+  (forall f, inwq s f = true -> fstt s f = 3%Z /\ ~ In f (places s)) /\
+  (forall nf, handed s nf -> fstt s nf = 2%Z \/ fstt s nf = 3%Z) /\
   (forall f, In f (places s) -> fstt s f <> 0%Z /\ 1 <= f <= N) /\
-  (forall f, fstt s f = 0 \/ fstt s f = 1 \/ fstt s f = 2 \/ fstt s f = 3)%Z /\
+  (forall f, fstt s f = 0 \/ fstt s f = 1 \/ fstt s f = 2 \/ fstt s f = 3 \/ fstt s f = 5)%Z /\
   length (places s) <= N /\
   (sfrom s 0 = 1 \/ sfrom s 0 = 2) /\
   ((forall k tmp, pc (thr s 0) <> PN5 k tmp) -> sto s 0 = 3 - sfrom s 0).
 Proof.
   intros I. split; [apply (places_NoDup N s I)|].
-  split. { intros f Hf. apply (f_queued _ _ _ _ _ _ (i_fib N s I f)). rewrite <- cnt_app. apply cnt_In; exact Hf. }
+  split. { intros f Hf. pose proof (i_fib N s I f) as [Ho Hq Hp Hw Hb Hs Hr].
+           rewrite <- cnt_app in Hq. apply cnt_In in Hf. specialize (Hq Hf). rewrite cnt_app in Hf.
+           destruct (inwq s f) eqn:E; [apply wqz_true in E; lia|]. lia. }
   split. { intros f Hf. apply cnt_In. unfold places. rewrite !cnt_app.
-           pose proof (f_placed _ _ _ _ _ _ (i_fib N s I f) Hf). lia. }
+           pose proof (i_fib N s I f) as [Ho Hq Hp Hw Hb Hs Hr].
+           destruct (inwq s f) eqn:E; [apply wqz_true in E|apply wqz_false in E].
+           - destruct (Hw E) as [H3 _]. destruct Hf as [Hf|[Hf|[Hf|[_ Hf]]]]; try lia; try discriminate.
+           - assert (1 <= fstt s f)%Z by lia. specialize (Hp H E). lia. }
+  split. { intros f Hf. apply wqz_true in Hf. pose proof (i_fib N s I f) as [Ho Hq Hp Hw Hb Hs Hr].
+           destruct (Hw Hf) as [H3 H0]. split; auto. intros Hin. apply cnt_In in Hin.
+           unfold places in Hin. rewrite !cnt_app in Hin. lia. }
+  split. { intros nf Hh. pose proof (i_loc N s I) as L. unfold handed, lok, hok in *.
+           destruct (pc (T0 s)); try contradiction; subst; tauto. }
   split. { intros f Hf. apply (places_range N s f I Hf). }
-  split. { intros f. pose proof (f_state _ _ _ _ _ _ (i_fib N s I f)). lia. }
+  split. { intros f. pose proof (f_state _ _ _ _ _ _ _ (i_fib N s I f)). lia. }
   split. { pose proof (places_length N s I). unfold places. rewrite !app_length. lia. }
   split. { apply (i_from N s I). }
   apply (i_to N s I).
@@ -604,12 +633,19 @@ Qed.
 (* ------------------------------------------------------------------ *)
 (* Fairness: the machine instrumented with
      byp g  = number of times fiber_scheduler_next handed out ANOTHER fiber
-              while g was READY, since g was last handed out (byp g is 0
-              whenever g is not READY, see g_zero, so this is "since g
-              became READY");
+              while g was queued and not SAVING, since g was last handed out
+              (byp g is 0 whenever g is SAVING or not in the deques, see
+              g_zero, so this counts "since g became runnable": since it was
+              scheduled READY, or since the flip if it was scheduled SAVING);
      hand   = the log of the fibers handed out by next, oldest first.
-   A hand-out is the PN8 step that does not take the SAVING branch. *)
+   A hand-out is the PN8 step that does not take the SAVING branch; the
+   SAVING branch (PN8 -> PN9: re-queue on store_to) changes no counter. *)
 Record ist := { base : st; byp : nat -> nat; hand : list nat }.
+
+(* g sits in one of the two deques of scheduler t and is not SAVING: next()
+   may hand it out *)
+Definition elig (s : st) (t g : nat) : bool :=
+  negb (Z.eqb (fstt s g) 5) && existsb (Nat.eqb g) (dq s (2 * t + 1) ++ dq s (2 * t + 2)).
 
 Definition lstep (x : ist) (t : nat) : ist :=
   let s := base x in
@@ -619,7 +655,7 @@ Definition lstep (x : ist) (t : nat) : ist :=
       if Z.eqb (fstt s y) 5 then {| base := s'; byp := byp x; hand := hand x |}
       else {| base := s';
               byp := fun g => if Nat.eqb g y then 0
-                              else if Z.eqb (fstt s g) 2 then S (byp x g) else byp x g;
+                              else if elig s t g then S (byp x g) else byp x g;
               hand := hand x ++ [y] |}
   | _ => {| base := s'; byp := byp x; hand := hand x |}
   end.
@@ -679,43 +715,33 @@ Qed.
 
 (* ---- the bypass invariant ---- *)
 Definition pendT (T : tst) : nat := match pc T with PN8 _ _ => 1 | _ => 0 end.
+Definition popT (T : tst) : option nat := match pc T with PN8 _ x => Some x | _ => None end.
 
-(* fs = fiber states, F / S = the deques, pd = 1 iff a popped fiber is about
-   to be handed out, b = the bypass counters *)
-Record GI (N : nat) (fs : nat -> Z) (F S : list nat) (pd : nat) (b : nat -> nat) : Prop := {
-  g_zero : forall g, fs g <> 2%Z -> b g = 0;
+(* fs = fiber states, F / S = the deques, pd = 1 iff a fiber has been popped and
+   its state is about to be examined (pp = that fiber), b = the bypass counters *)
+Record GI (N : nat) (fs : nat -> Z) (F S : list nat) (pd : nat) (pp : option nat) (b : nat -> nat) : Prop := {
+  g_zero : forall g, fs g = 5%Z \/ (~ In g F /\ ~ In g S /\ pp <> Some g) -> b g = 0;
   g_S : forall g, In g S -> b g + length F + pd + 1 <= N;
   g_F : forall p g, nth_error F p = Some g -> b g + p + pd + 2 <= 2 * N;
   g_all : forall g, b g <= 2 * (N - 1)
 }.
 
-(* fibers held by the thread that are READY have counter 0, except the one
-   about to be handed out at PN8 *)
-Definition gloc (b : nat -> nat) (T : tst) : Prop :=
-  match pc T with
-  | PY2 nf | PY3 nf | PI1 nf => b nf = 0
-  | PY4 nf ts => b nf = 0 /\ b ts = 0
-  | PSched f _ => b f = 0
-  | _ => True
-  end.
-
 Record GInv (N : nat) (x : ist) : Prop := {
   g_inv : Inv N (base x);
-  g_gi : GI N (fstt (base x)) (Fq (base x)) (Sq (base x)) (pendT (T0 (base x))) (byp x);
-  g_loc : gloc (byp x) (T0 (base x))
+  g_gi : GI N (fstt (base x)) (Fq (base x)) (Sq (base x)) (pendT (T0 (base x))) (popT (T0 (base x))) (byp x)
 }.
 
-Lemma GI_frame N fs fs' F S pd b :
-  GI N fs F S pd b -> (forall g, fs' g <> 2%Z -> fs g <> 2%Z \/ b g = 0) -> GI N fs' F S pd b.
+Lemma GI_frame N fs fs' F S pd pp b :
+  GI N fs F S pd pp b -> (forall g, fs' g = 5%Z -> fs g = 5%Z \/ b g = 0) -> GI N fs' F S pd pp b.
 Proof.
   intros [Hz HS HF Ha] H. constructor; auto.
-  intros g Hg. destruct (H g Hg); auto.
+  intros g [Hg|Hg]; auto. destruct (H g Hg); auto.
 Qed.
 
-Lemma startpc_g b T : startpc (pc T) -> gloc b T /\ pendT T = 0.
-Proof. unfold gloc, pendT. destruct (pc T); cbn; tauto. Qed.
+Lemma startpc_g T : startpc (pc T) -> pendT T = 0 /\ popT T = None.
+Proof. unfold pendT, popT. destruct (pc T); cbn; tauto. Qed.
 
-Lemma finish_g b t T c v : gloc b (snd (finish t T c v)) /\ pendT (snd (finish t T c v)) = 0.
+Lemma finish_g t T c v : pendT (snd (finish t T c v)) = 0 /\ popT (snd (finish t T c v)) = None.
 Proof.
   apply startpc_g.
   unfold finish.
@@ -723,7 +749,7 @@ Proof.
   { induction p as [|o r IH]; intros k; cbn [start]; [exact I|].
     assert (Hrec : forall e0 : list Z, startpc (pc (snd (let '(e, T) := start t c r (S k) in (e0 ++ e, T))))).
     { intros e0. specialize (IH (S k)). destruct (start t c r (S k)); exact IH. }
-    destruct o; try (destruct (Nat.eqb c 0)); try apply Hrec; exact I. }
+    destruct o; try (destruct (bad_id f)); try (destruct (Nat.eqb c 0)); try apply Hrec; exact I. }
   specialize (G (prog T) (S (opi T))). destruct (start t c (prog T) (S (opi T))). exact G.
 Qed.
 
@@ -732,19 +758,21 @@ Proof. reflexivity. Qed.
 Lemma Fq_set_thr s T' : Fq (set_thr s 0 T') = Fq s. Proof. reflexivity. Qed.
 Lemma Sq_set_thr s T' : Sq (set_thr s 0 T') = Sq s. Proof. reflexivity. Qed.
 
-(* schedule(): push on the batch being filled *)
+(* schedule() / the SAVING re-queue: push on the batch being filled *)
 Lemma GI_push N fs F S b f :
-  GI N fs F S 0 b -> b f = 0 -> length F + 1 <= N -> GI N fs F (f :: S) 0 b.
+  GI N fs F S 0 None b -> b f = 0 -> length F + 1 <= N -> GI N fs F (f :: S) 0 None b.
 Proof.
   intros [Hz HS HF Ha] H0 Hl. constructor; auto.
-  intros g [<-|Hg]; [lia|auto].
+  - intros g [Hg|(A & B & C)]; apply Hz; auto. right. repeat split; auto. intros Hin; apply B; right; exact Hin.
+  - intros g [<-|Hg]; [lia|auto].
 Qed.
 
 (* next(): the swap, done only when the drained batch is empty *)
 Lemma GI_swap N fs S b :
-  GI N fs [] S 0 b -> length S <= N -> GI N fs S [] 0 b.
+  GI N fs [] S 0 None b -> length S <= N -> GI N fs S [] 0 None b.
 Proof.
   intros [Hz HS HF Ha] Hl. constructor; auto.
+  - intros g [Hg|(A & B & C)]; apply Hz; auto.
   - intros g [].
   - intros p g Hp. assert (Hin : In g S) by (eapply nth_error_In; eauto).
     assert (p < length S) by (apply nth_error_Some; congruence).
@@ -752,150 +780,191 @@ Proof.
 Qed.
 
 (* next(): pop_bottom *)
-Lemma GI_pop N fs y F S b : GI N fs (y :: F) S 0 b -> GI N fs F S 1 b.
+Lemma GI_pop N fs y F S b : GI N fs (y :: F) S 0 None b -> GI N fs F S 1 (Some y) b.
 Proof.
   intros [Hz HS HF Ha]. constructor; auto.
+  - intros g [Hg|(A & B & C)]; apply Hz; auto. right. repeat split; auto; try discriminate.
+    intros [E|Hin]; [subst; congruence|auto].
   - intros g Hg. specialize (HS g Hg). cbn [length] in HS. lia.
   - intros p g Hp. specialize (HF (Datatypes.S p) g Hp). lia.
 Qed.
 
-(* next() returns y: every other READY fiber is bypassed once more *)
-Lemma GI_hand N fs F S b y :
-  GI N fs F S 1 b ->
-  (forall g, fs g = 2%Z -> g <> y -> In g F \/ In g S) ->
-  GI N fs F S 0 (fun g => if Nat.eqb g y then 0 else if Z.eqb (fs g) 2 then Datatypes.S (b g) else b g).
+(* next(): the popped fiber is SAVING: no hand-out *)
+Lemma GI_unpop N fs y F S b : GI N fs F S 1 (Some y) b -> fs y = 5%Z -> GI N fs F S 0 None b.
+Proof.
+  intros [Hz HS HF Ha] H5. constructor; auto.
+  - intros g [Hg|(A & B & C)]; apply Hz; auto.
+    destruct (Nat.eq_dec g y) as [->|Hne]; [left; exact H5|].
+    right. repeat split; auto. congruence.
+  - intros g Hg. specialize (HS g Hg). lia.
+  - intros p g Hp. specialize (HF p g Hp). lia.
+Qed.
+
+(* next() returns y: every other fiber that could have been returned is
+   bypassed once more *)
+Lemma GI_hand N fs F S b y (e : nat -> bool) :
+  GI N fs F S 1 (Some y) b ->
+  (forall g, e g = true -> fs g <> 5%Z /\ (In g F \/ In g S)) ->
+  GI N fs F S 0 None (fun g => if Nat.eqb g y then 0 else if e g then Datatypes.S (b g) else b g).
 Proof.
   intros [Hz HS HF Ha] Hq. constructor.
-  - intros g Hg. destruct (Nat.eqb_spec g y); auto. destruct (Z.eqb_spec (fs g) 2); [contradiction|auto].
-  - intros g Hg. specialize (HS g Hg). destruct (Nat.eqb g y); [lia|]. destruct (Z.eqb (fs g) 2); lia.
-  - intros p g Hp. specialize (HF p g Hp). destruct (Nat.eqb g y); [lia|]. destruct (Z.eqb (fs g) 2); lia.
-  - intros g. destruct (Nat.eqb_spec g y); [lia|]. destruct (Z.eqb_spec (fs g) 2); auto.
-    destruct (Hq g e n) as [Hin|Hin].
+  - intros g Hg. destruct (Nat.eqb_spec g y); auto. destruct (e g) eqn:Eg.
+    + destruct (Hq g Eg) as [A B]. exfalso. destruct Hg as [Hg|(C & D & _)]; tauto.
+    + apply Hz. destruct Hg as [Hg|(C & D & _)]; auto. right. repeat split; auto. congruence.
+  - intros g Hg. specialize (HS g Hg). destruct (Nat.eqb g y); [lia|]. destruct (e g); lia.
+  - intros p g Hp. specialize (HF p g Hp). destruct (Nat.eqb g y); [lia|]. destruct (e g); lia.
+  - intros g. destruct (Nat.eqb_spec g y); [lia|]. destruct (e g) eqn:Eg; auto.
+    destruct (Hq g Eg) as [_ [Hin|Hin]].
     + apply In_nth_error in Hin. destruct Hin as [p Hp]. specialize (HF p g Hp). lia.
     + specialize (HS g Hin). lia.
 Qed.
 
-Ltac fin_g x T :=
+Lemma held_not_queued N s f : Inv N s -> In f (held (T0 s)) -> ~ In f (Fq s) /\ ~ In f (Sq s).
+Proof.
+  intros I Hin. pose proof (f_once _ _ _ _ _ _ _ (i_fib N s I f)) as H. apply cnt_In in Hin.
+  split; intros Hq; apply cnt_In in Hq; lia.
+Qed.
+
+Lemma queued_12 s g : sfrom s 0 = 1 \/ sfrom s 0 = 2 ->
+  (In g (dq s 1 ++ dq s 2) <-> In g (Fq s ++ Sq s)).
+Proof. unfold Fq, Sq. intros [E|E]; rewrite E; cbn [Nat.sub]; rewrite !in_app_iff; tauto. Qed.
+
+Lemma elig_spec s g : sfrom s 0 = 1 \/ sfrom s 0 = 2 ->
+  (elig s 0 g = true <-> fstt s g <> 5%Z /\ In g (Fq s ++ Sq s)).
+Proof.
+  intros Hf. unfold elig. cbn [Nat.mul Nat.add]. rewrite andb_true_iff, negb_true_iff, Z.eqb_neq.
+  rewrite <- (queued_12 s g Hf). rewrite existsb_exists. split; intros [A B]; split; auto.
+  - destruct B as (y & Hy & E). apply Nat.eqb_eq in E. subst. exact Hy.
+  - exists g. split; auto. apply Nat.eqb_refl.
+Qed.
+
+Ltac fin_g :=
   match goal with |- context [finish ?a ?b ?c ?d] =>
     let A := fresh "A" in let B := fresh "B" in let EX := fresh "EX" in
-    pose proof (finish_g (byp x) a b c d) as [A B];
+    pose proof (finish_g a b c d) as [A B];
     destruct (finish a b c d) as [?e1 ?T1] eqn:EX; cbn [snd] in A, B;
-    cbn [fst]; rewrite T0_set_thr, ?Fq_set_thr, ?Sq_set_thr; rewrite B; split; [|exact A]
+    cbn [fst]; rewrite T0_set_thr, ?Fq_set_thr, ?Sq_set_thr; rewrite A, B
   end.
+Ltac gsame G := cbn [fst]; rewrite T0_set_thr; exact G.
 
 Theorem gstep N x : GInv N x -> GInv N (lstep x 0).
 Proof.
-  intros [I0 G L]. pose proof (step_inv N _ I0) as I'.
+  intros [I0 G]. pose proof (step_inv N _ I0) as I'.
   cut (GI N (fstt (base (lstep x 0))) (Fq (base (lstep x 0))) (Sq (base (lstep x 0)))
-          (pendT (T0 (base (lstep x 0)))) (byp (lstep x 0)) /\ gloc (byp (lstep x 0)) (T0 (base (lstep x 0)))).
-  { intros [A B]. constructor; auto. rewrite lstep_erase. exact I'. }
+          (pendT (T0 (base (lstep x 0)))) (popT (T0 (base (lstep x 0)))) (byp (lstep x 0))).
+  { intros A. constructor; auto. rewrite lstep_erase. exact I'. }
   pose proof (places_length N _ I0) as Hlen.
+  pose proof (fun f => held_not_queued N _ f I0) as Hnq.
   pose proof I0 as [Hn Hts Hfrom Hto Hfib Hprog Hloc].
   unfold lstep. set (s := base x) in *. unfold step.
-  unfold fib_ok in Hfib. unfold T0 in Hlen, Hfib, Hprog, Hloc, Hto, L, G.
+  unfold fib_ok in Hfib. unfold T0 in Hlen, Hnq, Hfib, Hprog, Hloc, Hto, G.
   remember (thr s 0) as T eqn:HT.
-  unfold lok in Hloc. unfold gloc in L. unfold pendT in G. unfold held in Hlen, Hfib.
+  unfold lok in Hloc. unfold pendT, popT in G. unfold held in Hlen, Hnq, Hfib.
   destruct (pc T) eqn:Hpc; cbn [base byp];
     try (assert (Hto' : sto s 0 = 3 - sfrom s 0) by (apply Hto; congruence)).
   - (* PSpawnR *)
-    destruct (Z.eqb_spec (fstt s f) 0) as [E|E].
-    + cbn [fst]. rewrite T0_set_thr. split; [exact G|exact I].
-    + fin_g x T. exact G.
+    destruct (Z.eqb_spec (fstt s f) 0) as [E|E]; [gsame G|fin_g; exact G].
   - (* PSpawnW *)
-    destruct Hloc as (Hr & Hf & Hz).
-    cbn [fst]. rewrite T0_set_thr. split.
-    + eapply GI_frame; [exact G|]. intros g Hg. cbn [fstt set_thr set_fs] in Hg. unfold upd in Hg.
-      destruct (Nat.eqb_spec g f); [congruence|auto].
-    + unfold gloc; cbn. apply (g_zero _ _ _ _ _ _ G). lia.
+    cbn [fst]. rewrite T0_set_thr.
+    eapply GI_frame; [exact G|]. intros g Hg. cbn [fstt set_thr set_fs] in Hg. unfold upd in Hg.
+    destruct (Nat.eqb_spec g f); [discriminate|auto].
   - (* PSched *)
-    destruct Hloc as [Hf2 Hk]. rewrite Hts, Hto'.
+    rewrite Hts, Hto'.
     destruct (Fq_push s (f :: dq s (3 - sfrom s 0)) Hfrom) as [EF ES].
+    assert (Hinf : In f (match k with KRequeue nf => nf :: opt (cur T) | _ => f :: opt (cur T) end)).
+    { destruct k; try (left; reflexivity). destruct Hloc as (H2 & Hc & _). rewrite Hc.
+      pose proof (f_range _ _ _ _ _ _ _ (Hfib f)) as Hr. destruct f; [lia|]. right; left; reflexivity. }
+    destruct (Hnq f Hinf) as [HnF HnS].
+    assert (Hb0 : byp x f = 0) by (apply (g_zero _ _ _ _ _ _ _ G); right; repeat split; auto; discriminate).
     assert (Hl1 : length (Fq s) + 1 <= N).
     { destruct k; cbn [length] in Hlen; lia. }
-    destruct k; try contradiction; fin_g x T; rewrite EF, ES;
+    destruct k; try contradiction; fin_g; rewrite EF, ES;
       apply GI_push; auto; exact G.
   - (* PBlockW *)
-    destruct Hloc as [Hc H1]. cbn [fst]. rewrite T0_set_thr. split; [|exact I].
+    cbn [fst]. rewrite T0_set_thr.
     eapply GI_frame; [exact G|]. intros g Hg. cbn [fstt set_thr set_fs] in Hg. unfold upd in Hg.
-    destruct (Nat.eqb_spec g (cur T)); [subst g|auto]. right. apply (g_zero _ _ _ _ _ _ G). lia.
-  - (* PYRead *)
-    cbn [fst]. rewrite T0_set_thr. split; [exact G|exact I].
-  - (* PN1 *)
-    destruct (dq s (sfrom s 0)); cbn [fst]; rewrite T0_set_thr; (split; [exact G|exact I]).
-  - (* PN2 *) cbn [fst]; rewrite T0_set_thr; (split; [exact G|exact I]).
-  - (* PN3 *) cbn [fst]; rewrite T0_set_thr; (split; [exact G|exact I]).
+    destruct (Nat.eqb_spec g (cur T)); [discriminate|auto].
+  - (* PYRead *) gsame G.
+  - (* PN1 *) destruct (dq s (sfrom s 0)); gsame G.
+  - (* PN2 *) gsame G.
+  - (* PN3 *) gsame G.
   - (* PN4 *)
     destruct Hloc as (Hk & HF & Htmp & Hsv). subst sv tmp. cbn [fst].
     destruct (Fq_swap s Hfrom) as [EF ES].
-    rewrite T0_set_thr, Fq_set_thr, Sq_set_thr, EF, ES. split; [|exact I].
+    rewrite T0_set_thr, Fq_set_thr, Sq_set_thr, EF, ES.
     rewrite HF in *. apply GI_swap; [exact G|]. cbn [length] in Hlen. lia.
-  - (* PN5 *) cbn [fst]; rewrite T0_set_thr; (split; [exact G|exact I]).
+  - (* PN5 *) gsame G.
   - (* PN6 *)
     destruct (dq s (sfrom s 0)) eqn:EF.
-    + unfold next_ret. destruct k; try contradiction; fin_g x T; exact G.
-    + cbn [fst]; rewrite T0_set_thr; (split; [exact G|exact I]).
+    + unfold next_ret. destruct k; try contradiction; try destruct (Z.eqb st 3); fin_g; exact G.
+    + gsame G.
   - (* PN7 *)
     destruct (dq s (sfrom s 0)) as [|y rest] eqn:EF.
-    + cbn [fst]; rewrite T0_set_thr; (split; [exact G|exact I]).
+    + gsame G.
     + cbn [fst]. destruct (Fq_pop s rest Hfrom) as [E1 E2].
-      rewrite T0_set_thr, Fq_set_thr, Sq_set_thr, E1, E2. split; [|exact I].
+      rewrite T0_set_thr, Fq_set_thr, Sq_set_thr, E1, E2.
       unfold Fq in G at 1. rewrite EF in G. apply (GI_pop _ _ _ _ _ _ G).
   - (* PN8 *)
-    destruct Hloc as [Hk Hx]. rewrite Hx. change (2 =? 5)%Z with false. cbv iota. cbn [base byp].
-    pose proof (Hfib x0) as [_ _ _ _ Hrx]. destruct x0 as [|y']; [lia|].
-    assert (HG : GI N (fstt s) (Fq s) (Sq s) 0
-                   (fun g => if Nat.eqb g (S y') then 0 else if Z.eqb (fstt s g) 2 then S (byp x g) else byp x g)).
-    { apply GI_hand; [exact G|]. intros g Hg Hne.
-      pose proof (Hfib g) as [_ _ Hp _ _]. specialize (Hp (or_intror Hg)).
-      assert (cnt (S y' :: opt (cur T)) g = 0).
-      { cbn [cnt]. rewrite cnt_opt. destruct (Nat.eqb_spec (S y') g); [congruence|].
-        destruct (Nat.eqb_spec (cur T) 0); auto. destruct (Nat.eqb_spec (cur T) g); auto.
-        subst g. unfold kok in Hk. destruct k; try contradiction; lia. }
-      assert (1 <= cnt (Fq s ++ Sq s) g) by (rewrite cnt_app; lia).
-      apply cnt_In in H0. apply in_app_or in H0. exact H0. }
-    unfold next_ret. destruct k; try contradiction; cbn [fst]; rewrite T0_set_thr; (split; [exact HG|]);
-      unfold gloc; cbn [pc with_pc]; rewrite Nat.eqb_refl; reflexivity.
-  - (* PN9 *) contradiction.
+    destruct Hloc as [Hk Hx].
+    destruct (Z.eqb_spec (fstt s x0) 5) as [E5|E5]; cbn [base byp].
+    + cbn [fst]. rewrite T0_set_thr. apply (GI_unpop _ _ _ _ _ _ G E5).
+    + pose proof (f_range _ _ _ _ _ _ _ (Hfib x0)) as Hrx. destruct x0 as [|y']; [lia|].
+      assert (HG : GI N (fstt s) (Fq s) (Sq s) 0 None
+                     (fun g => if Nat.eqb g (S y') then 0 else if elig s 0 g then S (byp x g) else byp x g)).
+      { apply GI_hand; [exact G|]. intros g Hg. apply (elig_spec s g Hfrom) in Hg.
+        destruct Hg as [A B]. split; auto. apply in_app_or; exact B. }
+      unfold next_ret. destruct k; try contradiction; cbn [fst]; rewrite T0_set_thr; exact HG.
+  - (* PN9 *)
+    destruct Hloc as [Hk Hx]. cbn [fst]. rewrite Hto'.
+    destruct (Fq_push s (x0 :: dq s (3 - sfrom s 0)) Hfrom) as [EF ES].
+    rewrite T0_set_thr, Fq_set_thr, Sq_set_thr, EF, ES.
+    apply GI_push; [exact G| |cbn [length] in Hlen; lia].
+    apply (g_zero _ _ _ _ _ _ _ G). left; exact Hx.
   - (* PY2 *)
-    destruct Hloc as (Hc & H13 & Hnf).
-    destruct (Z.eqb_spec (fstt s (cur T)) 1); cbn [fst]; rewrite T0_set_thr; (split; [exact G|]);
-      unfold gloc; cbn [pc with_pc]; auto.
-    split; auto. apply (g_zero _ _ _ _ _ _ G). pose proof (Hfib 0) as [_ _ _ _ Hr0]. 
-    intros E0. rewrite E0 in Hr0. assert (1 <= 0 <= N) by (apply Hr0; discriminate). lia.
+    destruct (Z.eqb_spec (fstt s (cur T)) 1); gsame G.
   - (* PY3 *)
-    destruct Hloc as (Hc & H1 & Hnf). cbn [fst]. rewrite T0_set_thr. split.
-    + eapply GI_frame; [exact G|]. intros g Hg. cbn [fstt set_thr set_fs] in Hg. unfold upd in Hg.
-      destruct (Nat.eqb_spec g (cur T)); [congruence|auto].
-    + unfold gloc; cbn [pc with_pc]. split; auto. apply (g_zero _ _ _ _ _ _ G). lia.
+    cbn [fst]. rewrite T0_set_thr.
+    eapply GI_frame; [exact G|]. intros g Hg. cbn [fstt set_thr set_fs] in Hg. unfold upd in Hg.
+    destruct (Nat.eqb_spec g (cur T)); [discriminate|auto].
   - (* PY4 *)
-    destruct Hloc as (Hc & Hnf & Hts0). destruct L as [L1 L2].
-    assert (HG : GI N (upd (fstt s) nf 1%Z) (Fq s) (Sq s) 0 (byp x)).
+    assert (HG : GI N (upd (fstt s) nf 1%Z) (Fq s) (Sq s) 0 None (byp x)).
     { eapply GI_frame; [exact G|]. intros g Hg. unfold upd in Hg.
-      destruct (Nat.eqb_spec g nf); [subst; auto|auto]. }
+      destruct (Nat.eqb_spec g nf); [discriminate|auto]. }
     destruct ts as [|ts'].
-    + fin_g x T. exact HG.
-    + cbn [fst]. rewrite T0_set_thr. split; [exact HG|]. unfold gloc; cbn [pc with_pc]. exact L2.
+    + fin_g. exact HG.
+    + cbn [fst]. rewrite T0_set_thr. exact HG.
   - (* PL1 *)
     unfold lb_continue. rewrite Hn. rewrite lb_scan_1thread.
     destruct Hloc as [[-> Hc]|[-> Hr]]; unfold lb_ret.
-    + cbn [fst]. rewrite T0_set_thr. split; [exact G|exact I].
-    + fin_g x T. exact G.
+    + gsame G.
+    + fin_g. exact G.
   - (* PL2 *) contradiction.
   - (* PI1 *)
-    destruct Hloc as [Hc Hnf]. fin_g x T.
+    fin_g.
     eapply GI_frame; [exact G|]. intros g Hg. cbn [fstt set_thr set_fs] in Hg. unfold upd in Hg.
-    destruct (Nat.eqb_spec g nf); [subst; auto|auto].
+    destruct (Nat.eqb_spec g nf); [discriminate|auto].
   - (* PW1 *)
-    destruct (Z.eqb_spec (fstt s f) 3).
-    + cbn [fst]; rewrite T0_set_thr; (split; [exact G|exact I]).
-    + fin_g x T. exact G.
+    destruct (Z.eqb (fstt s f) 3 && inwq s f); [gsame G|fin_g; exact G].
   - (* PW2 *)
-    destruct Hloc as [Hr H3]. cbn [fst]. rewrite T0_set_thr. split.
-    + eapply GI_frame; [exact G|]. intros g Hg. cbn [fstt set_thr set_fs] in Hg. unfold upd in Hg.
-      destruct (Nat.eqb_spec g f); [congruence|auto].
-    + unfold gloc; cbn [pc with_pc]. apply (g_zero _ _ _ _ _ _ G). lia.
+    cbn [fst]. rewrite T0_set_thr.
+    eapply GI_frame; [exact G|]. intros g Hg. cbn [fstt set_thr set_fs] in Hg. unfold upd in Hg.
+    destruct (Nat.eqb_spec g f); [discriminate|auto].
+  - (* PP1 *)
+    destruct (Z.eqb (fstt s f) 3 && inwq s f); [gsame G|fin_g; exact G].
+  - (* PP2 *)
+    destruct (Hnq f (or_introl eq_refl)) as [HnF HnS].
+    cbn [fst]. rewrite T0_set_thr.
+    eapply GI_frame; [exact G|]. intros g Hg. cbn [fstt set_thr set_fs] in Hg. unfold upd in Hg.
+    destruct (Nat.eqb_spec g f); [subst g|auto]. right.
+    apply (g_zero _ _ _ _ _ _ _ G). right. repeat split; auto. discriminate.
+  - (* PF1 *)
+    destruct (Z.eqb_spec (fstt s f) 5); [gsame G|fin_g; exact G].
+  - (* PF2 *)
+    fin_g.
+    eapply GI_frame; [exact G|]. intros g Hg. cbn [fstt set_thr set_fs] in Hg. unfold upd in Hg.
+    destruct (Nat.eqb_spec g f); [discriminate|auto].
   - (* Fin *)
-    cbn [fst]. unfold gloc, pendT, T0. fold s. rewrite <- HT, Hpc. split; [exact G|exact I].
+    cbn [fst]. unfold pendT, popT, T0. fold s. rewrite <- HT, Hpc. exact G.
 Qed.
 
 Lemma ginit N prog : prog_ok N prog -> GInv N (iinit true prog).
@@ -903,9 +972,9 @@ Proof.
   intros Hp. pose proof (init_inv N prog Hp) as I0.
   assert (Hr : run (fst (init true [prog])) 0) by (left; reflexivity).
   destruct (start_spec N (fst (init true [prog])) 0 prog 0 1 Hp Hr) as (_ & _ & _ & _ & Hs).
-  destruct (startpc_g (fun _ => 0) _ Hs) as [A B].
+  destruct (startpc_g _ Hs) as [A B].
   constructor; cbn [base byp iinit]; auto.
-  change (T0 (fst (init true [prog]))) with (snd (start 0 0 prog 1)). rewrite B.
+  change (T0 (fst (init true [prog]))) with (snd (start 0 0 prog 1)). rewrite A, B.
   constructor; auto; try lia.
   - intros g [].
   - intros [|p] g H; discriminate.
@@ -921,33 +990,32 @@ Qed.
 (* C10: the bypass bound *)
 Lemma bypass_bound N prog x g :
   prog_ok N prog -> ireach true prog x -> byp x g <= 2 * (N - 1).
-Proof. intros Hp R. apply (g_all _ _ _ _ _ _ (g_gi N x (ireach_ginv N prog x Hp R))). Qed.
+Proof. intros Hp R. apply (g_all _ _ _ _ _ _ _ (g_gi N x (ireach_ginv N prog x Hp R))). Qed.
 
 (* sharper bounds by position (the invariant itself) *)
 Lemma bypass_bound_by_position N prog x :
   prog_ok N prog -> ireach true prog x ->
-  (forall g, fstt (base x) g <> 2%Z -> byp x g = 0) /\
+  (forall g, fstt (base x) g = 5%Z \/
+             (~ In g (Fq (base x) ++ Sq (base x)) /\ forall k, pc (thr (base x) 0) <> PN8 k g) ->
+             byp x g = 0) /\
   (forall g, In g (Sq (base x)) -> byp x g + length (Fq (base x)) + 1 <= N) /\
   (forall p g, nth_error (Fq (base x)) p = Some g -> byp x g + p + 2 <= 2 * N).
 Proof.
   intros Hp R. destruct (g_gi N x (ireach_ginv N prog x Hp R)) as [Hz HS HF _].
-  split; [exact Hz|]. split.
+  split; [|split].
+  - intros g [Hg|[Hg Hk]]; apply Hz; auto. right. rewrite in_app_iff in Hg.
+    repeat split; try tauto. unfold popT, T0. destruct (pc (thr (base x) 0)) eqn:E; try discriminate.
+    intros E1. inversion E1; subst. eapply Hk; reflexivity.
   - intros g Hg. specialize (HS g Hg). lia.
   - intros p g Hg. specialize (HF p g Hg). lia.
 Qed.
 
 (* ------------------------------------------------------------------ *)
-(* progress of a READY fiber, without liveness: count the hand-outs      *)
+(* progress of a runnable fiber, without liveness: count the hand-outs   *)
 Definition queued (s : st) (g : nat) : Prop := In g (Fq s ++ Sq s).
+(* g can be handed out: not SAVING, and in the deques or just popped *)
 Definition pendingR (x : ist) (g : nat) : Prop :=
-  queued (base x) g \/ exists k, pc (T0 (base x)) = PN8 k g.
-
-Lemma pending_ready N s g : Inv N s -> (queued s g \/ exists k, pc (T0 s) = PN8 k g) -> fstt s g = 2%Z.
-Proof.
-  intros I [H|[k H]].
-  - apply (f_queued _ _ _ _ _ _ (i_fib N s I g)). rewrite <- cnt_app. apply cnt_In. exact H.
-  - pose proof (i_loc N s I) as L. unfold lok in L. rewrite H in L. apply L.
-Qed.
+  fstt (base x) g <> 5%Z /\ (queued (base x) g \/ exists k, pc (T0 (base x)) = PN8 k g).
 
 (* a queued fiber stays queued until next() pops it *)
 Lemma queue_mono N s g : Inv N s -> queued s g ->
@@ -961,7 +1029,7 @@ Proof.
   all: try (left; repeat match goal with |- context [match ?b with _ => _ end] => destruct b end; exact H).
   - (* PSched *)
     rewrite Hts, Hto'. destruct (Fq_push s (f :: dq s (3 - sfrom s 0)) Hfrom) as [EF ES].
-    left. destruct Hloc as [_ Hk].
+    left.
     destruct k; try contradiction;
       match goal with |- context [finish ?a ?b ?c ?d] => destruct (finish a b c d) end; cbn [fst];
       rewrite Fq_set_thr, Sq_set_thr, EF, ES; apply in_app_or in H; apply in_or_app;
@@ -972,7 +1040,7 @@ Proof.
     rewrite Fq_set_thr, Sq_set_thr, EF, ES. apply in_app_or in H; apply in_or_app; tauto.
   - (* PN6 *)
     left. destruct (dq s (sfrom s 0)); [|exact H].
-    unfold next_ret. destruct k; try contradiction;
+    unfold next_ret. destruct k; try contradiction; try destruct (Z.eqb st 3);
       match goal with |- context [finish ?a ?b ?c ?d] => destruct (finish a b c d) end; exact H.
   - (* PN7 *)
     destruct (dq s (sfrom s 0)) as [|y rest] eqn:EF; [left; exact H|].
@@ -981,34 +1049,65 @@ Proof.
     unfold Fq in H at 1. rewrite EF in H. destruct H as [<-|H]; [right; eauto|left; exact H].
   - (* PN8 *)
     left. destruct (Z.eqb (fstt s x) 5); [exact H|].
-    unfold next_ret. destruct k; try (exfalso; tauto); destruct x;
+    unfold next_ret. destruct k; try (exfalso; tauto); destruct x; try destruct (Z.eqb st 3);
       try match goal with |- context [finish ?a ?b ?c ?d] => destruct (finish a b c d) end; exact H.
+  - (* PN9 *)
+    rewrite Hto'. destruct (Fq_push s (x :: dq s (3 - sfrom s 0)) Hfrom) as [EF ES].
+    left. cbn [fst]. rewrite Fq_set_thr, Sq_set_thr, EF, ES. apply in_app_or in H; apply in_or_app.
+    destruct H; [left; auto|right; right; auto].
   - (* PL1 *)
     left. unfold lb_continue. rewrite Hn, lb_scan_1thread. unfold lb_ret.
     destruct k; try match goal with |- context [finish ?a ?b ?c ?d] => destruct (finish a b c d) end; exact H.
 Qed.
 
-(* one step of the instrumented machine, seen from a pending READY fiber g *)
+(* only park-saving writes SAVING *)
+Lemma saving_step N s g : Inv N s -> fstt (fst (step s 0)) g = 5%Z ->
+  fstt s g = 5%Z \/ pc (T0 s) = PP2 g.
+Proof.
+  intros I0 H. pose proof (i_n N s I0) as Hn.
+  pose proof (i_loc N s I0) as L. unfold lok in L.
+  unfold step, T0 in *. destruct (pc (thr s 0)) eqn:Hpc; try contradiction; clear L.
+  all: try (unfold lb_continue in H; rewrite Hn, lb_scan_1thread in H; unfold lb_ret in H).
+  all: try (unfold next_ret in H).
+  all: repeat match type of H with
+       | context [match ?b with _ => _ end] =>
+           lazymatch b with context [match _ with _ => _ end] => fail | _ => destruct b end
+       end.
+  all: cbn [fst fstt set_thr set_fs set_wq set_dq set_from set_to] in H; unfold upd in H.
+  all: try (left; exact H).
+  all: try (match type of H with context [Nat.eqb ?a ?b] => destruct (Nat.eqb_spec a b) end;
+            [try discriminate H; subst; auto|left; exact H]).
+Qed.
+
+(* one step of the instrumented machine, seen from a runnable fiber g *)
 Lemma pending_step N x g : GInv N x -> pendingR x g ->
   let x' := lstep x 0 in
   (hand x' = hand x /\ byp x' g = byp x g /\ pendingR x' g) \/
   (exists y, y <> g /\ hand x' = hand x ++ [y] /\ byp x' g = S (byp x g) /\ pendingR x' g) \/
   hand x' = hand x ++ [g].
 Proof.
-  intros GI0 P. pose proof (g_inv N x GI0) as I0.
-  pose proof (pending_ready N _ g I0 P) as H2.
-  pose proof (i_loc N _ I0) as Hloc. unfold lok, T0 in Hloc.
+  intros GI0 [H5 P]. pose proof (g_inv N x GI0) as I0.
+  pose proof (i_from N _ I0) as Hfrom.
+  assert (H5' : fstt (base (lstep x 0)) g <> 5%Z).
+  { rewrite lstep_erase. intros E. destruct (saving_step N _ g I0 E) as [E1|E1]; [contradiction|].
+    assert (Hin : In g (held (T0 (base x)))) by (unfold held; rewrite E1; left; reflexivity).
+    destruct (held_not_queued N _ g I0 Hin) as [A B].
+    destruct P as [Hq|[k Hk]]; [|congruence].
+    unfold queued in Hq. apply in_app_or in Hq. tauto. }
   destruct P as [Hq|[k Hk]].
   - assert (P' : pendingR (lstep x 0) g).
-    { unfold pendingR. rewrite lstep_erase. apply (queue_mono N _ g I0 Hq). }
+    { split; [exact H5'|]. rewrite lstep_erase. apply (queue_mono N _ g I0 Hq). }
     revert P'. unfold lstep. cbv zeta.
     destruct (pc (thr (base x) 0)) eqn:Hpc; intros P'; try (left; cbn [hand byp]; auto; fail).
-    destruct Hloc as [_ Hx]. rewrite Hx in *. change (2 =? 5)%Z with false in *. cbv iota in *.
+    destruct (Z.eqb_spec (fstt (base x) x0) 5) as [E5|E5]; [left; cbn [hand byp]; auto|].
     cbn [hand byp]. destruct (Nat.eqb_spec g x0) as [E|E].
     + right; right. subst; reflexivity.
-    + right; left. exists x0. rewrite H2. cbn [Z.eqb Pos.eqb]. repeat split; auto.
-  - right; right. unfold lstep. unfold T0 in Hk. rewrite Hk. rewrite H2.
-    change (2 =? 5)%Z with false. cbv iota. reflexivity.
+    + right; left. exists x0.
+      assert (He : elig (base x) 0 g = true) by (apply (elig_spec _ g Hfrom); split; auto).
+      split; [auto|]. split; [reflexivity|]. split; [|exact P'].
+      cbn beta. rewrite ?He. reflexivity.
+  - right; right. unfold lstep. unfold T0 in Hk. rewrite Hk.
+    destruct (Z.eqb_spec (fstt (base x) g) 5); [contradiction|reflexivity].
 Qed.
 
 Lemma hand_prefix sch : forall x, exists l, hand (irun x sch) = hand x ++ l.
@@ -1049,14 +1148,14 @@ Proof.
       split; auto. left; left; reflexivity.
 Qed.
 
-(* C10 corollary: after g is READY and queued, at most 2(N-1) - byp g further
-   hand-outs can take place without g being handed out *)
+(* C10 corollary: once g is queued and not SAVING, at most 2(N-1) - byp g
+   further hand-outs can take place without g being handed out *)
 Lemma poll_progress N prog x g sch :
-  prog_ok N prog -> ireach true prog x -> queued (base x) g ->
+  prog_ok N prog -> ireach true prog x -> fstt (base x) g <> 5%Z -> queued (base x) g ->
   exists l, hand (irun x sch) = hand x ++ l /\ (In g l \/ byp x g + length l <= 2 * (N - 1)).
 Proof.
-  intros Hp R Hq. pose proof (ireach_ginv N prog x Hp R) as G.
-  destruct (pending_run N g sch x G (or_introl Hq)) as (l & Hl & Hc).
+  intros Hp R H5 Hq. pose proof (ireach_ginv N prog x Hp R) as G.
+  destruct (pending_run N g sch x G (conj H5 (or_introl Hq))) as (l & Hl & Hc).
   exists l. split; auto. destruct Hc as [Hc|[Hc _]]; auto. right.
   rewrite <- Hc. apply (bypass_bound N prog); auto. apply ireach_irun; exact R.
 Qed.
@@ -1120,11 +1219,12 @@ Ltac vstep H :=
   rewrite ?Hts, ?Hfrom, ?Hcur, ?Hq, ?H1, ?H2, ?H3;
   cbn [Z.eqb Pos.eqb fst next_ret];
   rewrite ?Hts, ?Hfrom, ?Hcur, ?Hq, ?H1, ?H2, ?H3;
-  try (unfold finish; rewrite Hprog, Hopi; cbn [start Nat.eqb app fst snd repeat]);
+  try (unfold finish; rewrite Hprog, Hopi; cbn [start bad_id NF Nat.eqb Nat.ltb Nat.leb orb app fst snd repeat]);
   constructor; cbn [base byp hand fst nthr to_store sfrom sto dq fstt thr set_thr set_dq set_fs set_from set_to
                      pc cur prog opi with_pc];
-  unfold upd; cbn [Nat.eqb pc cur prog opi with_pc];
-  rewrite ?Hn, ?Hts, ?Hfrom, ?Hcur, ?Hq, ?H1, ?H2, ?H3, ?Hh, ?Hb, ?Hprog, ?Hopi; cbn [Z.eqb Pos.eqb]; try reflexivity.
+  unfold upd, elig; cbn [Nat.eqb Nat.mul Nat.add pc cur prog opi with_pc];
+  rewrite ?Hn, ?Hts, ?Hfrom, ?Hcur, ?Hq, ?H1, ?H2, ?H3, ?Hh, ?Hb, ?Hprog, ?Hopi;
+  cbn [Z.eqb Pos.eqb negb andb orb existsb app Nat.eqb]; try reflexivity.
 
 Ltac adv :=
   match goal with
@@ -1150,6 +1250,14 @@ Lemma starve_prefix k :
   V (irun (iinit false (starve_prog (S k))) (repeat 0 15)) PYRead 3 (repeat OYield k) 5 [2;1] 2 2 1 [3] 1.
 Proof. apply starve_prefix_gen. constructor; reflexivity. Qed.
 
+Lemma start_cur t c : forall p k, cur (snd (start t c p k)) = c.
+Proof.
+  induction p as [|a r IH]; intros k; cbn [start]; auto.
+  assert (Hrec : forall e0 : list Z, cur (snd (let '(e, T) := start t c r (S k) in (e0 ++ e, T))) = c).
+  { intros e0. specialize (IH (S k)). destruct (start t c r (S k)); exact IH. }
+  destruct a; try (destruct (bad_id f)); try (destruct (Nat.eqb c 0)); try apply Hrec; reflexivity.
+Qed.
+
 (* one yield of fiber 3 (fiber 2 on top of the drained deque, then 1) ... *)
 Lemma starve_cycA x r o h n : V x PYRead 3 r o [2;1] 2 2 1 h n ->
   V (irun x (repeat 0 9)) (pc (snd (start 0 2 r (S o)))) 2 (prog (snd (start 0 2 r (S o))))
@@ -1158,9 +1266,7 @@ Proof.
   intros H. cbn [irun fold_left repeat]. do 8 adv.
   match goal with HV : V _ _ _ _ _ _ _ _ _ _ _ |- _ =>
     destruct HV as [Hn Hts Hfrom Hpc Hcur Hprog Hopi Hq H1 H2 H3 Hh Hb] end.
-  assert (Hc : cur (snd (start 0 2 r (S o))) = 2).
-  { clear. generalize (S o). induction r as [|a r IH]; intros k; cbn [start]; auto.
-    destruct a; cbn; auto. specialize (IH (S k)). destruct (start 0 2 r (S k)); exact IH. }
+  assert (Hc : cur (snd (start 0 2 r (S o))) = 2) by apply start_cur.
   unfold igrant; cbn [mstatus M]; unfold status_of; rewrite Hn, Hpc; cbn [Nat.ltb Nat.leb].
   unfold lstep; rewrite Hpc; unfold step; rewrite Hpc. rewrite Hts, Hfrom, Hq.
   unfold finish. rewrite Hprog, Hopi. destruct (start 0 2 r (S o)) as [e1 T1]. cbn [snd] in *.
@@ -1176,9 +1282,7 @@ Proof.
   intros H. cbn [irun fold_left repeat]. do 8 adv.
   match goal with HV : V _ _ _ _ _ _ _ _ _ _ _ |- _ =>
     destruct HV as [Hn Hts Hfrom Hpc Hcur Hprog Hopi Hq H1 H2 H3 Hh Hb] end.
-  assert (Hc : cur (snd (start 0 3 r (S o))) = 3).
-  { clear. generalize (S o). induction r as [|a r IH]; intros k; cbn [start]; auto.
-    destruct a; cbn; auto. specialize (IH (S k)). destruct (start 0 3 r (S k)); exact IH. }
+  assert (Hc : cur (snd (start 0 3 r (S o))) = 3) by apply start_cur.
   unfold igrant; cbn [mstatus M]; unfold status_of; rewrite Hn, Hpc; cbn [Nat.ltb Nat.leb].
   unfold lstep; rewrite Hpc; unfold step; rewrite Hpc. rewrite Hts, Hfrom, Hq.
   unfold finish. rewrite Hprog, Hopi. destruct (start 0 3 r (S o)) as [e1 T1]. cbn [snd] in *.
